@@ -113,9 +113,9 @@ impl ConnectionTuning {
 ///
 /// * [`mem_channel_bound`](struct.ConnectionTuning.html#structfield.mem_channel_bound) controls
 /// the channel size for communication from a `Connection` and its channels into the I/O thread.
-/// Setting this to 0 means all communications from a handle into the I/O thread will block until
-/// the I/O thread is ready to receive the message; setting it to something higher than 0 means
-/// messages into the I/O thread will be buffered and will not block. Note that many methods are
+/// Setting this to 0 (treated like 1) means a communication from a handle into the I/O thread
+/// will block until the I/O thread has received the previous one; setting it to something higher
+/// means messages into the I/O thread will be buffered and will not block. Note that many methods are
 /// synchronous in the AMQP sense (e.g., [`Channel::queue_declare`](struct.Channel.html)) and will
 /// see no benefit from buffering, as they must wait for a response from the I/O thread before they
 /// return. This bound may improve performance for asynchronous messages, but see the next two
